@@ -180,6 +180,11 @@ impl Maker for MakerImp {
         (0..n as u64).map(|i| mixv(self.seed, i)).collect::<Vec<_>>().into()
     }
     fn vec_grow(&self, mut v: CVec<u64>, n: u32) -> CVec<u64> {
+        if n % 4 == 1 {
+            // insert (not push) into a vector that is typically exactly full
+            let at = v.len() / 2;
+            v.insert(at, mixv(self.seed, 777));
+        }
         for i in 0..n as u64 {
             v.push(mixv(self.seed, 1000 + i));
         }
